@@ -19,8 +19,8 @@ use crate::un::{fnv, Un};
 
 pub struct C17;
 
-const QUICK_TYPES: usize = 40;
-const THOROUGH_TYPES: usize = 150;
+const QUICK_TYPES: usize = 96;
+const THOROUGH_TYPES: usize = 320;
 
 fn fam_dir(tag: u64) -> PathBuf {
     PathBuf::from(crate::engine::verif_root())
